@@ -11,8 +11,10 @@ mod disthdr;
 mod edges;
 mod etf;
 mod frag;
+mod handshake;
 mod framing;
 mod io;
+mod md5;
 mod order;
 mod term_json;
 
@@ -37,6 +39,9 @@ fn main() {
         "dh-encode" => disthdr::run_encode(rest),
         "dh-edges" => disthdr::run_edges(rest),
         "framing-run" => framing::run(rest),
+        "md5" => md5::run_selftest(rest),
+        "hs-edges" => handshake::run_edges(rest),
+        "hs-wire" => handshake::run_wire(rest),
         other => {
             eprintln!("unknown subcommand {other}");
             2
